@@ -168,10 +168,12 @@ impl SamplerClamp {
         tex: &Texture<impl AsSlice2<C>>,
         tc: TexCoord,
     ) -> C {
-        use crate::math::float::f32;
-        let u = f32::floor(tc.u().clamp(0.0, tex.w - 1.0)) as u32;
-        let v = f32::floor(tc.v().clamp(0.0, tex.h - 1.0)) as u32;
-        tex.data.as_slice2()[[u, v]]
+        // Float-to-int casts truncate and saturate (negatives and NaN to 0).
+        // Clamp as integers: `w - 1.0` is not exact for very large textures
+        let d = tex.data.as_slice2();
+        let u = (tc.u() as u32).min(d.width() - 1);
+        let v = (tc.v() as u32).min(d.height() - 1);
+        d[[u, v]]
     }
 }
 
